@@ -18,6 +18,14 @@ import (
 var two256 = new(big.Int).Lsh(big.NewInt(1), 256)
 
 func c16Value(r *rand.Rand) *big.Int {
+	if r.Intn(10) == 0 { // exact bit lengths, machine-word boundaries favoured
+		k := 1 + r.Intn(256)
+		if r.Intn(2) == 0 {
+			k = []int{7, 8, 9, 31, 32, 33, 63, 64, 65, 127, 128, 129, 255, 256}[r.Intn(14)]
+		}
+		v := new(big.Int).Rand(r, new(big.Int).Lsh(big.NewInt(1), uint(k-1)))
+		return v.SetBit(v, k-1, 1)
+	}
 	switch r.Intn(12) {
 	case 0:
 		return big.NewInt(0)
@@ -88,7 +96,8 @@ func c16Values(r *rand.Rand, n int) []*big.Int {
 	return out
 }
 
-var mustReject = []string{"", "0x", "zz", "0xzz", " 1", "1 ", "1.5", "1e3", "0x 1", "--1", "abc", "0xg", "x10", "0x1.8", "١٢"}
+var mustReject = []string{"", "0x", "zz", "0xzz", " 1", "1 ", "1.5", "1e3", "0x 1", "--1", "abc", "0xg", "x10", "0x1.8", "١٢",
+	"0x+ff", "0x-1", "0x-0", "0x0x1", "0xx1", "0X-a", "0x+", "1-", "1+1", "0x1-"}
 var badIndex = []string{"-1", "4294967296", "18446744073709551616", "1.5", `"1"`, `"0x1"`, "1e10", "null1", "[1]", "true"}
 
 func runC16(o *cli.Opts, run *evid.Run) {
